@@ -155,6 +155,7 @@ pub fn run(t: &[&str]) -> String {
     for tok in &t[1..] { if let Some((k, v)) = tok.split_once('=') { kv.insert(k, v); } }
     let kind = kv.get("kind").copied().unwrap_or("mbuff").to_string();
     let norun = kv.get("norun").is_some();
+    let force: Vec<String> = kv.get("force").map(|s| s.split(',').map(|x| x.to_string()).collect()).unwrap_or_default();
     let engines: Vec<String> = kv.get("engines").map(|s| s.split(',').filter(|x| !x.is_empty() && *x != "-").map(|x| x.to_string()).collect()).unwrap_or_default();
     let fixoff: (usize, usize) = kv.get("fixoff").and_then(|s| s.split_once(':')).map(|(a, b)| (a.parse().unwrap_or(0), b.parse().unwrap_or(8))).unwrap_or((0, 8));
     let extrabase: Vec<u64> = c.extra.iter().map(|e| e.as_ptr() as u64).collect();
@@ -236,7 +237,7 @@ pub fn run(t: &[&str]) -> String {
             if st(&c1) != st(&c2) || code1 != code2 { engine_out_ref.push(format!("{}=nonrepeatable:{}:{}", e, st(&c1), st(&c2))); continue; }
             if st(&c1) != "ok" { engine_out_ref.push(format!("{}={}", e, st(&c1))); continue; }
             let code_info = match &code1 { Some(c) => format!(":code={}.{:016x}", c.len(), fnv(c)), None => String::new() };
-            if !interp_ok || norun { engine_out_ref.push(format!("{}=compiled{}", e, code_info)); continue; }   // outside the claim: never run unchecked code
+            if (!interp_ok && !force.contains(e)) || norun { engine_out_ref.push(format!("{}=compiled{}", e, code_info)); continue; }   // outside the claim: never run unchecked code
             // run the generated code in a forked child: a fault, trap or endless loop must not take the harness down
             let vmref = &mut vm;
             let res = forked(move || {
@@ -715,4 +716,11 @@ pub fn gen_engines(w: &mut impl Write, thorough: bool, seed: u64) {
 /// C12: the accepted strings of the verify suite, compiled by both engines (and run when the interpreter returns a value)
 pub fn gen_accepted_engines(w: &mut impl Write, thorough: bool, seed: u64) {
     with_suffix(w, |b| gen_accepted(b, thorough, seed), &mut |_| Some("engines=jit,clif kind=mbuff norun=1".into()));
+}
+
+/// C11: the C02 boundary probes on Cranelift-compiled code; an out-of-bounds probe must trap (the child dies with SIGILL)
+pub fn gen_clifprobe(w: &mut impl Write, thorough: bool, seed: u64) {
+    let mut k = 0u64;
+    with_suffix(w, |b| gen_memprobe(b, thorough, seed), &mut |l| { k += 1; if l.contains("arange=") && l.contains("extra0") { return None; }
+        if thorough || k % 4 == 0 { Some("engines=clif force=clif kind=mbuff".into()) } else { None } });
 }
